@@ -277,7 +277,7 @@ impl WalRun {
 
 pub fn random_script(rng: &mut StdRng, len: usize, probes: bool) -> Vec<J> {
     let mut out = vec![];
-    let kinds = ["cnode", "cnodep", "setp", "deln", "addl", "reml", "cedge", "cedgep", "setep", "dele", "setp", "cnodep"];
+    let kinds = ["cnode", "cnodep", "setp", "deln", "addl", "reml", "cedge", "cedgep", "setep", "dele", "setp", "cnodep", "remp", "remep"];
     while out.len() < len {
         let roll = rng.random_range(0..100);
         if roll < 70 {
